@@ -162,6 +162,31 @@ func (fr *Frame) lockOp(st *State, c *ssa.CallCommon, lock Val, acquire bool, po
 			freshObj := fmt.Sprintf("(> (root %s) %s)", base.S, fr.topEntryHeap())
 			so := structOf(base.T)
 			for _, f := range tc.GuardedBy[field] {
+				if strings.HasPrefix(f, "map:") {
+					// the contents of the map held in field f are protected by this lock
+					for i := 0; i < so.NumFields(); i++ {
+						if so.Field(i).Name() != f[4:] {
+							continue
+						}
+						mt, ok := so.Field(i).Type().Underlying().(*types.Map)
+						if !ok {
+							continue
+						}
+						mref := r.load(st, r.fieldPtr(base, i))
+						if dk, vk, ks, vs, ok := r.mapKeys(mt); ok {
+							nd := r.facts.Fresh("lk_dom", "(Array "+ks+" Bool)")
+							nv := r.facts.Fresh("lk_val", "(Array "+ks+" "+vs+")")
+							d, v := r.get(st, dk), r.get(st, vk)
+							hd := sIte(freshObj, sSelect(d, mref.S), nd)
+							hv := sIte(freshObj, sSelect(v, mref.S), nv)
+							r.set(st, dk, sStore(d, mref.S, hd))
+							r.set(st, vk, sStore(v, mref.S, hv))
+							r.baseStore(st, dk, mref.S, hd)
+							r.baseStore(st, vk, mref.S, hv)
+						}
+					}
+					continue
+				}
 				if strings.HasPrefix(f, "ghost:") {
 					g := f[6:]
 					key := "g|" + g
@@ -418,4 +443,60 @@ func (fr *Frame) blockingCallAt(st *State, ins ssa.Instruction, name string, fc 
 }
 
 // chanRecvAssume attaches the declared channel invariant (if any) to a received value.
-func (fr *Frame) chanRecvAssume(st *State, ch Val, v Val, ok Val) {}
+func (fr *Frame) chanRecvAssume(st *State, ch Val, v Val, ok Val) {
+	r := fr.r
+	if ch.T == nil {
+		return
+	}
+	invs := r.eng.cs.ChanInv[typeKey(ch.T)]
+	for _, c := range invs {
+		val, err := fr.eval(st, c.Expr, map[string]Val{"ch": ch, "elem": v})
+		if err != nil {
+			r.evalErrors = append(r.evalErrors, fmt.Sprintf("chaninv %s: %v", c.Text, err))
+			continue
+		}
+		r.assume(st, sImp(ok.S, val.S))
+	}
+}
+
+// chanSendCheck: the sent element must satisfy the channel's declared invariant.
+func (fr *Frame) chanSendCheck(st *State, ins ssa.Instruction, site string, ch Val, v Val) {
+	r := fr.r
+	if ch.T == nil {
+		return
+	}
+	for i, c := range r.eng.cs.ChanInv[typeKey(ch.T)] {
+		fr.requireExpr(st, "chaninv-send", fr.oblFunc(), fr.oblName(fmt.Sprintf("%s.%d%s", site, i+1, tagSuffix(c.Tags))), c.Expr, map[string]Val{"ch": ch, "elem": v}, c.Tags, ins.Pos(), "channel invariant at send: "+c.Text)
+	}
+}
+
+// guardedMapAccess: a lookup/update/delete on a map held in a struct field whose type
+// contract declares the map contents guarded (guarded_by L: map:field) needs the lock.
+func (fr *Frame) guardedMapAccess(st *State, mapVal ssa.Value, pos token.Pos, kind string) {
+	r := fr.r
+	u, ok := mapVal.(*ssa.UnOp)
+	if !ok || u.Op != token.MUL {
+		return
+	}
+	fa, ok := u.X.(*ssa.FieldAddr)
+	if !ok {
+		return
+	}
+	tc := r.typeContractFor(fa.X.Type())
+	if tc == nil {
+		return
+	}
+	so := structOf(fa.X.Type())
+	fname := so.Field(fa.Field).Name()
+	l := tc.lockOf("map:" + fname)
+	if l == "" {
+		return
+	}
+	base := fr.val(st, fa.X)
+	sk := structKey(fa.X.Type())
+	lockRef := r.subObj(sk, l, base.S)
+	held := sSelect(r.get(st, "g|$held"), lockRef)
+	freshObj := fmt.Sprintf("(> (root %s) %s)", base.S, fr.topEntryHeap())
+	r.require(st, "guarded", fr.oblFunc(), fr.oblName(fmt.Sprintf("%s(%s.%s[])@%s", kind, sk, fname, r.eng.pos(pos))), sOr(held, freshObj), tc.Tags, pos,
+		fmt.Sprintf("%s of the contents of map %s.%s requires lock %s", kind, sk, fname, l))
+}
